@@ -298,7 +298,11 @@ func cmdCheck(args []string) int {
 		if r.fail != "" {
 			inconclusive = append(inconclusive, fmt.Sprintf("%s: %s", shortName(r.name), firstLine(r.fail)))
 			if strings.HasPrefix(r.fail, "engine error") {
-				fmt.Fprintln(os.Stderr, r.fail)
+				lines := strings.Split(r.fail, "\n")
+				if len(lines) > 24 {
+					lines = lines[:24]
+				}
+				fmt.Fprintln(os.Stderr, strings.Join(lines, "\n"))
 			}
 		}
 		for _, o := range r.obls {
